@@ -262,6 +262,30 @@ func runC10(r *Run) {
 	}
 	rb.Done()
 
+	// ---- the confirming removal identifies the transaction, not only its ID
+	ow := r.Rule("C10.owner", "the removal whose result confirms ownership (Start's and the callback's rollbacks) compares the table entry with the very transaction the caller is about to complete or report on: an entry registered later under the same ID is not taken for the caller's own", 1)
+	if m.Del != nil {
+		r.Analysed(m.Del)
+		byIdentity := false
+		for _, pa := range m.Del.Params[1:] {
+			if pt, ok := pa.Type().Underlying().(*types.Pointer); ok {
+				if _, isS := pt.Elem().Underlying().(*types.Struct); isS {
+					// compared with the looked-up entry before the delete?
+					eachInstr(m.Del, func(b *ssa.BasicBlock, i int, in ssa.Instruction) {
+						if bo, ok := in.(*ssa.BinOp); ok && (bo.Op == token.EQL || bo.Op == token.NEQ) && (bo.X == ssa.Value(pa) || bo.Y == ssa.Value(pa)) {
+							byIdentity = true
+						}
+					})
+				}
+			}
+		}
+		ow.Instance(fnName(m.Del), true, map[string]interface{}{"fn": fnName(m.Del), "compares_entry_with_transaction": byIdentity})
+		if !byIdentity {
+			ow.Violation(m.Del, m.Del.Pos(), "ownership confirmed by ID only", "the rollback asks whether any transaction is registered under the ID: when the caller's transaction was completed meanwhile and a new one was started with the same ID (the same request sent again), the stale caller removes the new transaction, whose handler is then never invoked, and completes or pools the old object a second time")
+		}
+	}
+	ow.Done()
+
 	// ---- closed: no return before the lookup
 	cl := r.Rule("C10.closed", "no path through the agent callback returns before the table lookup (so the closed events emitted by the agent's Close reach in-flight transactions)", 1)
 	{
